@@ -753,10 +753,21 @@ def run(cfg):
     chain_rules(R, tr)
     lint_rules(cfg, R)
     extractor_rules(cfg, R)
+    from . import rules_C03b
+    rules_C03b.sweep_accounting(cfg, R)
     return R
 
 
 SELFTEST = [
+    dict(id='delta-truncated-to-offset-granularity-only', file='tools/tzdb/transformer.py', unique=False, nth=1,
+         find='delta_granularity = max(self.offset_granularity, 900)', replace='delta_granularity = self.offset_granularity', rule='R11'),
+    dict(id='fixed-rules-delta-truncated-to-offset-granularity-only', file='tools/tzdb/transformer.py', unique=False, nth=0,
+         find='delta_granularity = max(self.offset_granularity, 900)', replace='delta_granularity = self.offset_granularity', rule='R11'),
+    dict(id='removed-zone-without-reason', file='tools/tzdb/transformer.py',
+         find="                        _add_reason(\n                            removed_zones, name,\n                            f\"offset in RULES '{rules_string}'\")\n",
+         replace='', rule='R10'),
+    dict(id='zone-notes-not-handed-on', file='tools/tzdb/transformer.py',
+         find='            {k: list(v) for k, v in self.all_notable_zones.items()},', replace='            {},', rule='R11'),
     dict(id='reason-not-recorded', file='tools/tzdb/transformer.py',
          find='            else:\n                _add_reason(removed_zones, name, "no ZoneEra found")', replace='            else:\n                pass', rule='R1', construct='_remove_zones_without_eras'),
     dict(id='empty-zone-dropped-silently', file='tools/tzdb/transformer.py', regex=True,
